@@ -15,6 +15,8 @@ val fst : ('a1 * 'a2) -> 'a1
 
 val snd : ('a1 * 'a2) -> 'a2
 
+val length : 'a1 list -> nat
+
 val app : 'a1 list -> 'a1 list -> 'a1 list
 
 type comparison =
@@ -317,6 +319,14 @@ val lit_term : lit -> term
 
 val lit_leb : (term -> term -> bool) -> lit -> lit -> bool
 
+val ltb0 : (term -> term -> bool) -> term -> term -> bool
+
+val sel_min :
+  (term -> term -> bool) -> term -> term -> term list -> (term * term
+  list) * bool
+
+val sel_sort : (term -> term -> bool) -> nat -> term list -> term list
+
 val tsort : (term -> term -> bool) -> term list -> term list
 
 val and_scan : lit option -> lit list -> lit list option
@@ -393,29 +403,29 @@ val pnorm : poly -> poly
 
 val num : sort -> q -> term
 
-val mono_term : sort -> mono -> term
+val mono_term : (term -> term -> bool) -> sort -> mono -> term
 
-val to_term : sort -> poly -> term
+val to_term : (term -> term -> bool) -> sort -> poly -> term
 
 val same_num_sort : term list -> sort option
 
-val mkPlus : term list -> term option
+val mkPlus : (term -> term -> bool) -> term list -> term option
 
-val mkNeg : term -> term option
+val mkNeg : (term -> term -> bool) -> term -> term option
 
-val mkMinus : term list -> term option
+val mkMinus : (term -> term -> bool) -> term list -> term option
 
 val flatten_times : term list -> term list
 
 val last_only : 'a1 list -> 'a1 list
 
-val mkTimes : bool -> term list -> term option
+val mkTimes : (term -> term -> bool) -> bool -> term list -> term option
 
-val mkRealDiv : term list -> term option
+val mkRealDiv : (term -> term -> bool) -> term list -> term option
 
 val int_of : term -> z
 
-val mkIntDiv : term list -> term option
+val mkIntDiv : (term -> term -> bool) -> term list -> term option
 
 val mkMod : term list -> term option
 
